@@ -50,7 +50,9 @@ CONSTANTS Modes,      \* subset of {"stylesheet", "inline"}
           MaxDepth,   \* block levels allowed below a top-level rule
           MaxFeat,    \* non-default selector / value / prelude productions
           MaxWs,      \* optional separators
-          AtKinds     \* at-rule kinds to use
+          AtKinds,    \* at-rule kinds to use
+          MinAtoms,   \* emit only documents of at least this many atoms (0 for the exhaustive runs)
+          EndBias     \* 0: exhaustive enumeration; n > 0 (-simulate): while units remain in the budget a list ends with probability 1/n only
 
 AllKinds == {"import", "charset", "namespace", "layer", "media", "supports", "document", "keyframes", "wkeyframes",
              "fontface", "page", "unknown"}
@@ -127,6 +129,8 @@ SlotW          == Sym("slot", "optW", "", "", "", 0) \* optional pure whitespace
 First(a)       == Sym("slot", "first", a, "", "", 0) \* between the at-keyword and a first prelude token a
 
 P(p, cu, cf, rhs) == [p |-> p, cu |-> cu, cf |-> cf, rhs |-> rhs]
+EndOK(s) == EndBias = 0 \/ s.bu = 0 \/ RandomElement(1..EndBias) = 1      \* deep random derivations: do not stop early
+Ends(p, s) == IF EndOK(s) THEN {P(p, 0, 0, <<>>)} ELSE {}
 Vs(seq, ctx) == [i \in 1..Len(seq) |-> TV(seq[i], ctx)]
 Pre(seq)  == Vs(seq, "pre")
 PreF(seq) == <<First(seq[1])>> \o Pre(seq)
@@ -191,7 +195,7 @@ PlainComp == {P("v.num", 0, 1, <<TV("num", "val")>>), P("v.dim", 0, 1, <<TV("dim
 Prods(h, s) ==
     LET n == h.n  a == h.a  d == h.d IN
     CASE n = "Sheet" ->
-           {P("sheet.end", 0, 0, <<>>)} \cup
+           Ends("sheet.end", s) \cup
            (IF d = 0 THEN {} ELSE
             LET rest == <<SlotW, NT("Sheet", "", d - 1)>> IN
             {P("top.comment", 1, 0, <<T("comment", "unit", "Comment", "top")>> \o rest),
@@ -208,11 +212,11 @@ Prods(h, s) ==
               : K \in BlockKinds(a) \cap AtKinds})
       [] n = "Prelude" -> PreludeProds(a)
       [] n = "RuleList" ->
-           {P("rl.end", 0, 0, <<>>),
+           Ends("rl.end", s) \cup {
             P("rl.ruleset", 1, 0, <<NT("QRule", "rulelist", d), Slot, NT("RuleList", "", d)>>),
             P("rl.at-rule", 1, 0, <<NT("AtRule", "rulelist", d), Slot, NT("RuleList", "", d)>>)}
       [] n = "KfList" ->
-           {P("kf.end", 0, 0, <<>>),
+           Ends("kf.end", s) \cup {
             P("kf.rule", 1, 0, <<Mark("BeginRuleset", "keyframes"), NT("KfSel", "", 0), Slot, Skip("lbrace"), Slot,
                                  NT("DeclList", "kfdecl", 0), End("EndRuleset", "keyframes"), Slot, NT("KfList", "", d)>>)}
       [] n = "KfSel" ->
@@ -234,7 +238,7 @@ Prods(h, s) ==
            (IF s.pv \in {"ident", "hash", "star", "amp"}
             THEN {P("cx.descendant", 0, 1, <<Desc, NT("Compound", "any", 0), NT("CxRest", "", 0)>>)} ELSE {})
       [] n = "DeclList" ->   \* a: ruleset | atdecl | kfdecl | inline
-           {P("dl.end", 0, 0, <<>>),
+           Ends("dl.end", s) \cup {
             P("dl.declaration", 1, 0, <<NT("Decl", a, 0), NT("DRest", a, d)>>),
             P("dl.custom-property", 1, 0, <<NT("Custom", a, 0), NT("DRest", a, d)>>)} \cup
            (IF s.mode = "stylesheet" /\ a = "ruleset" /\ d > 0
@@ -340,6 +344,6 @@ Init == \E m \in Modes : st = Norm(Start(m))
 Next == /\ st.todo # <<>>
         /\ \E nx \in Succ(st) :
              /\ st' = Norm(nx)
-             /\ (st'.todo = <<>> => Write(st'))
+             /\ (st'.todo = <<>> /\ Len(st'.atoms) >= MinAtoms => Write(st'))
 Spec == Init /\ [][Next]_st
 =============================================================================
